@@ -307,8 +307,8 @@ func (tt *TermTable) mk(op Op, sort Sort, p1, p2 int, name string, args ...*Term
 // ---- constants ----
 
 var (
-	constTrue  = &Term{op: OConst, sort: boolSort, cval: 1}
-	constFalse = &Term{op: OConst, sort: boolSort, cval: 0}
+	constTrue   = &Term{op: OConst, sort: boolSort, cval: 1}
+	constFalse  = &Term{op: OConst, sort: boolSort, cval: 0}
 	smallConsts [65][]*Term
 )
 
